@@ -221,7 +221,11 @@ macro_rules! impl_derivatives {
 
             #[inline]
             fn atan2(&self, other: Self) -> Self {
-                let mut res = (self / other.clone()).atan();
+                let mut res = if self.re().abs() > other.re().abs() {
+                    -(other.clone() / self).atan()
+                } else {
+                    (self / other.clone()).atan()
+                };
                 res.re = self.re.atan2(other.re);
                 res
             }
